@@ -79,7 +79,7 @@ where
     let max_out = r.output_frames_max();
     let in_len = next_in + s_in;
     let out_len = next_out + s_out;
-    nd.assume(in_len <= MAXIN && out_len <= MAXOUT);
+    crate::fit!(nd, in_len <= MAXIN && out_len <= MAXOUT, "C04.demand_fits_scenario_bound[base]");
     fill_line(&mut xin[..], *pos);
     let sent = T::coerce(SENT_F);
     *out = [sent; MAXOUT];
